@@ -1,0 +1,40 @@
+//go:build verif
+// +build verif
+
+package app
+
+import (
+	bankkeeper "github.com/cosmos/cosmos-sdk/x/bank/keeper"
+
+	"github.com/ovrclk/akash/x/audit"
+	"github.com/ovrclk/akash/x/cert"
+	dkeeper "github.com/ovrclk/akash/x/deployment/keeper"
+	escrowkeeper "github.com/ovrclk/akash/x/escrow/keeper"
+	mkeeper "github.com/ovrclk/akash/x/market/keeper"
+	pkeeper "github.com/ovrclk/akash/x/provider/keeper"
+)
+
+// VerifKeepers exposes the application's own keeper instances (with the
+// escrow hooks wired by setAkashKeepers) to external verification harnesses.
+type VerifKeepers struct {
+	Bank       bankkeeper.Keeper
+	Escrow     escrowkeeper.Keeper
+	Deployment dkeeper.IKeeper
+	Market     mkeeper.IKeeper
+	Provider   pkeeper.IKeeper
+	Audit      audit.Keeper
+	Cert       cert.Keeper
+}
+
+// VerifKeepers returns the keepers of this application instance.
+func (app *AkashApp) VerifKeepers() VerifKeepers {
+	return VerifKeepers{
+		Bank:       app.keeper.bank,
+		Escrow:     app.keeper.escrow,
+		Deployment: app.keeper.deployment,
+		Market:     app.keeper.market,
+		Provider:   app.keeper.provider,
+		Audit:      app.keeper.audit,
+		Cert:       app.keeper.cert,
+	}
+}
